@@ -29,6 +29,7 @@ import (
 	"github.com/youchainhq/go-youchain/common"
 	"github.com/youchainhq/go-youchain/core/state"
 	"github.com/youchainhq/go-youchain/crypto"
+	"github.com/youchainhq/go-youchain/logging"
 	"github.com/youchainhq/go-youchain/rlp"
 	"github.com/youchainhq/go-youchain/trie"
 	"github.com/youchainhq/go-youchain/you/downloader"
@@ -63,6 +64,8 @@ type SOp struct {
 	How   string `json:"how,omitempty"`
 	Hows  []string `json:"hows,omitempty"`
 	Batch bool   `json:"batch,omitempty"`
+	Peer  int    `json:"peer,omitempty"`
+	Force bool   `json:"force,omitempty"`
 }
 
 type CaseIn struct {
@@ -73,6 +76,8 @@ type CaseIn struct {
 	Entries  [][2]string `json:"entries,omitempty"`
 	Accounts []AccIn     `json:"accounts,omitempty"`
 	Pre      []int       `json:"pre,omitempty"`
+	Caller   bool        `json:"caller,omitempty"` // drive the sync through trieSync (fillTasks / process / commit)
+	Peers    int         `json:"peers,omitempty"`
 	Script   []SOp       `json:"script"`
 }
 
@@ -418,15 +423,16 @@ func (it *interner) nodeview(b []byte) (string, bool) {
 	return fmt.Sprintf("mkNode [%s] %d %s", strings.Join(kids, ";"), inc, val), true
 }
 
-func (it *interner) tables() (string, string) {
-	var hs, ds []string
+func (it *interner) tables() (string, string, string) {
+	var hs, ds, ls []string
 	for id := 0; id < len(it.blobs); id++ { // nodeview may intern new hashes but no new blobs
 		hs = append(hs, fmt.Sprintf("(%d,%d)", id, it.bh[id]))
+		ls = append(ls, fmt.Sprintf("(%d,%d)", id, len(it.blobs[id])))
 		if nv, ok := it.nodeview(it.blobs[id]); ok {
 			ds = append(ds, fmt.Sprintf("(%d,%s)", id, nv))
 		}
 	}
-	return "[" + strings.Join(hs, ";") + "]", "[" + strings.Join(ds, ";") + "]"
+	return "[" + strings.Join(hs, ";") + "]", "[" + strings.Join(ds, ";") + "]", "[" + strings.Join(ls, ";") + "]"
 }
 
 // ---- failing writer ------------------------------------------------------------
@@ -488,6 +494,7 @@ type runner struct {
 	outstanding map[common.Hash]bool // popped by Missing and not yet answered successfully
 	dumpEvery int
 	sinceDump int
+	cs        *callerState
 }
 
 func (r *runner) newSync() {
@@ -499,6 +506,9 @@ func (r *runner) newSync() {
 	r.ts = downloader.VerifC19NewTrieSync(r.sched)
 	r.pool, r.dropped = nil, nil
 	r.outstanding = map[common.Hash]bool{}
+	if r.in.Caller {
+		r.newCaller()
+	}
 }
 
 func (r *runner) fail(what, detail string, known bool) {
@@ -522,6 +532,9 @@ func (r *runner) storeCoq(db *youdb.MemDatabase) string {
 	sort.Slice(keys, func(i, j int) bool { return bytes.Compare(keys[i], keys[j]) < 0 })
 	var xs []string
 	for _, k := range keys {
+		if len(k) != common.HashLength {
+			continue // rawdb.WriteFastTrieProgress's marker, written by trieSync.updateStats
+		}
 		v, _ := db.Get(k)
 		xs = append(xs, fmt.Sprintf("(%d,%d)", r.it.H(common.BytesToHash(k)), r.it.B(v)))
 	}
@@ -558,6 +571,9 @@ func (r *runner) after() {
 // oracle: hash consistency + closedness of the destination database
 func (r *runner) checkDb(when string) {
 	for _, k := range r.dst.Keys() {
+		if len(k) != common.HashLength {
+			continue
+		}
 		v, _ := r.dst.Get(k)
 		h := common.BytesToHash(k)
 		if crypto.Keccak256Hash(v) != h {
@@ -770,6 +786,9 @@ func (r *runner) commit(lim int, batch bool) {
 }
 
 func (r *runner) exec(o SOp) {
+	if r.in.Caller && r.execCaller(o) {
+		return
+	}
 	switch o.Op {
 	case "missing":
 		got := r.sched.Missing(o.N)
@@ -906,7 +925,7 @@ func (r *runner) exec(o SOp) {
 		// an honest responder answers everything that is asked, in the asked order
 		r.pool = append(r.pool, r.dropped...)
 		r.dropped = nil
-		for round := 0; round < 10000; round++ {
+		for round := 0; round < 4*len(r.src.all)+20; round++ {
 			got := r.sched.Missing(o.N)
 			var xs []string
 			for _, h := range got {
@@ -1025,8 +1044,13 @@ func runCase(in *CaseIn) (res *runResult) {
 	for _, h := range r.src.all {
 		r.it.B(r.srcBlob(h))
 	}
-	hs, ds := r.it.tables()
-	res.coq = fmt.Sprintf("mkCase %s\n %s\n %d %s %s\n [%s]", hs, ds, r.it.H(r.src.root), vf.Bool(r.src.state), db0, strings.Join(r.ops, ";\n  "))
+	hs, ds, ls := r.it.tables()
+	res.coq = fmt.Sprintf("mkCase %s\n %s\n %s %d\n %d %s %s\n [%s]", hs, ds, ls, youdb.IdealBatchSize, r.it.H(r.src.root), vf.Bool(r.src.state), db0, strings.Join(r.ops, ";\n  "))
+	if in.Caller {
+		res.classes["campaign_caller"]++
+	} else {
+		res.classes["campaign_sync"]++
+	}
 	return res
 }
 
@@ -1168,6 +1192,21 @@ func genCase(r *vf.Rng) *CaseIn {
 		for i := 0; i < 1+r.Intn(3); i++ {
 			in.Pre = append(in.Pre, r.Intn(1<<20))
 		}
+	}
+	if r.Chance(28) { // separate campaign class: through the downloader's request bookkeeping
+		in.Caller = true
+		in.Peers = 1 + r.Intn(4)
+		if in.Mode == "state" && len(in.Accounts) > 0 && r.Chance(35) {
+			// code large enough for bytesUncommitted to cross youdb.IdealBatchSize
+			for k := 0; k < 1+r.Intn(2); k++ {
+				a := &in.Accounts[r.Intn(len(in.Accounts))]
+				if a.CodeFromNode == nil && a.CodeHashRaw == nil {
+					a.Code = hx(r.Bytes(40000 + r.Intn(90000)))
+				}
+			}
+		}
+		in.Script = genCallerScript(r)
+		return in
 	}
 	steps := 2 + r.Heavy(160)
 	for s := 0; s < steps; s++ {
@@ -1342,6 +1381,7 @@ func main() {
 	corpus := flag.String("corpus", "/verif/corpus/C19", "")
 	file := flag.String("file", "", "")
 	flag.Parse()
+	logging.Root().SetHandler(logging.DiscardHandler()) // trieSync.updateStats logs every commit
 	switch mode {
 	case "gen":
 		gen(*seed, *n, *out, *corpus)
